@@ -14,7 +14,7 @@ from ..terms import C, ZERO, short, is_const, INF, mk_byte, mk_cat, bitop_byte, 
 from .. import mem
 from .dispatch import OP
 from .c03 import own_mac_byte
-from .frame_common import (FrameSetup, run_regions, Snap, sends, effects, SEEN_COUNT, TOS, OPC)
+from .frame_common import (FrameSetup, run_regions, Snap, sends, effects, SEEN_COUNT, TOS, OPC, request_alloc)
 from .automata_common import load_core
 
 WEAK = re.compile(r'^weak:SEEN\+(\d+)#')
@@ -98,12 +98,12 @@ def decide(rep, prog):
         if not set(ops) <= {OP['probe'], OP['train']}:
             continue
         so = st.objs['st']
-        allocs = [e for e, _ in effects(st, 'malloc') if str(e[1]).startswith('heap:parseProbe')]
+        allocs = [e for e, _ in effects(st, 'malloc') if request_alloc(e[1])]
         failed = any(e[0] == 'malloc-failed' for e in st.trace)
         forus = all(own_mac_byte(st, ('in', 'frame', 18 + i), i) for i in range(6))
         cnt = st.canon(mem.load_scalar(st, so, C(fs.soff('see_list_count')), fs.ix.parse_type('unsigned int')))
         head = st.canon(mem.load_scalar(st, so, C(fs.soff('see_list')), fs.ix.parse_type('void *')))
-        new_node = head[0] == 'ptr' and head[1].startswith('heap:parseProbe')
+        new_node = head[0] == 'ptr' and request_alloc(head[1])
         if not forus:
             notforus += 1
             ok = not allocs and not new_node and st.same(cnt, SEEN_COUNT)
@@ -138,7 +138,7 @@ def decide(rep, prog):
                       function='parseProbe', file=fnf, sample={'count_range_on_link_path': repr(d)})
         else:
             dropped += 1
-            live = [oid for oid, ob in st.objs.items() if oid.startswith('heap:parseProbe') and ob.live]
+            live = [oid for oid, ob in st.objs.items() if request_alloc(oid) and ob.live]
             rep.check(not live or failed, 'R07.f', 'observer|drop-frees', 'a duplicate / rejected observation leaves its node allocated', function='parseProbe', file=fnf)
             rep.check(st.same(cnt, SEEN_COUNT) or failed, 'R07.g', 'observer|drop-count', 'count changes although no node was linked', function='parseProbe', file=fnf)
     if linked == 0:
@@ -159,7 +159,7 @@ def decide(rep, prog):
             # buffer contents are examined, never the copying idiom
             if kind != 'continue':
                 continue
-            bufs = [oid for oid, ob in st.objs.items() if oid.startswith('heap:parseQuery') and ob.live]
+            bufs = [oid for oid, ob in st.objs.items() if request_alloc(oid) and ob.live]
             if len(bufs) != 1:
                 continue
             buf = st.objs[bufs[0]]
